@@ -15,6 +15,7 @@ import (
 	"crypto/sha256"
 	"fmt"
 	"os"
+	"path/filepath"
 	"strings"
 	"sync"
 	"sync/atomic"
@@ -23,7 +24,11 @@ import (
 
 	"github.com/btcsuite/btcd/btcutil/v2"
 	"github.com/btcsuite/btclog/v2"
+	"github.com/btcsuite/btcd/wire/v2"
+	"github.com/btcsuite/btcwallet/walletdb"
 	"github.com/lightningnetwork/lnd/channeldb"
+	"github.com/lightningnetwork/lnd/clock"
+	"github.com/lightningnetwork/lnd/kvdb"
 	"github.com/lightningnetwork/lnd/htlcswitch/hop"
 	"github.com/lightningnetwork/lnd/invoices"
 	"github.com/lightningnetwork/lnd/lntypes"
@@ -293,6 +298,556 @@ type verifC08Net struct {
 	byzMu   sync.Mutex
 	byzHash *lntypes.Hash
 	byzDone bool
+
+	// st: every durable store of the cluster behind the power-loss
+	// interposer (see "Power loss" below)
+	st *verifC08Stores
+	// plEpoch counts power-loss boots. A result waiter (or a send) that was
+	// attached before a power loss belongs to the discarded continuation:
+	// it must not write a payment's outcome any more. Bumped under netMu.
+	plEpoch atomic.Int64
+}
+
+// ---------------------------------------------------------------------------
+// Power loss: a crash-consistent cut through the whole cluster in the middle
+// of activity (DESIGN 3 C08 (d)).
+//
+// Every durable store of the cluster - the channel database of each node,
+// which in this fixture is also the node's switch database (circuit map,
+// payment results, forwarding packages, switch packager), and the database of
+// each node's invoice registry - sits behind verifC08PLDB, a kvdb.Backend
+// interposer. All interposers share ONE RWMutex: a read-write transaction
+// (Update, Batch, BeginReadWriteTx..Commit/Rollback) holds the read side from
+// before it begins until after it has committed. powerCut takes the write
+// side, i.e. it runs at an instant at which no write transaction is open
+// anywhere, copies every database file through a read transaction and
+// releases. The set of transactions in the copies is therefore closed under
+// real-time precedence: if T2 is in the cut and T1 committed before T2 began
+// (same goroutine, other goroutine, other node - whatever the causal path,
+// e.g. a message that was sent after T1 and whose handling led to T2) then T1
+// is in the cut too. That is exactly what a simultaneous power loss of all
+// three machines leaves behind: a message that was sent is backed by
+// everything its sender had persisted before sending, nothing a receiver
+// persisted depends on a message from outside the cut, and all messages that
+// were in flight are lost. (In lnd the invoices live in the same bbolt file
+// as the channels; here they are a second file of the same node. Two
+// transactions that overlapped in time here would have been serialised in
+// some order by the single file, and a downward-closed set is a prefix of one
+// of those orders, so the cut is a state the single file can be left in.)
+// Writes are never frozen and nodes are never cut at different instants.
+//
+// What the fixture keeps in memory although lnd keeps it on disk:
+//   - invoice registries: they are real invoices.InvoiceRegistry objects over
+//     a database, so they are NOT carried over: after the power loss new
+//     registries are created over the copies (everything the discarded
+//     continuation did to the invoices is gone with it);
+//   - preimage caches (lnd: witness cache in channel.db): the maps are copied
+//     under the write lock, the new cluster gets the copies (the links only
+//     ever write to them);
+//   - the wire monitor's tables (what Bob received/sent so far): copied under
+//     the write lock and rolled back at the boot, because the messages of the
+//     discarded continuation never happened. An event is recorded when the
+//     receiving mock server takes the message off its queue, i.e. before the
+//     link handles it, hence before any durable effect of it: the monitor's
+//     copy can only be AHEAD of the databases' (a message recorded as arrived
+//     whose effects are not in the cut = a message lost in flight). Being
+//     ahead only ever makes the wire oracle more permissive (downFulfill) or
+//     is used for identification (which hash an (chan,id) refers to, which is
+//     overwritten when the id is re-used after the boot);
+//   - which attempt ids were handed to which sender's switch: every payment's
+//     outcome is forgotten at the boot and re-queried by attempt id from the
+//     new switch (circuit map / result store of the cut). An attempt whose
+//     SendHTLC only happened in the discarded continuation is unknown there
+//     ("notsent"), as is its add: SendHTLC commits the circuit before the
+//     packet reaches the link.
+//   - hold-invoice decisions of the harness: the holder goroutines of the
+//     discarded continuation are stopped without acting, new ones are started
+//     against the new registries; a decision that is in the cut (invoice
+//     settled/cancelled on disk) stands, every later one is re-made (same
+//     decision, it is a fixed attribute of the payment).
+// Everything else the new cluster knows comes from the copies.
+// ---------------------------------------------------------------------------
+
+type verifC08Cut struct {
+	mu sync.RWMutex
+	// open: write transactions currently in progress anywhere in the
+	// cluster. A commit that is stuck in an fsync of an overloaded disk
+	// for seconds is activity the channel heights do not show: the
+	// network is not idle while this is non-zero (waitIdle).
+	open atomic.Int64
+}
+
+func (c *verifC08Cut) begin() { c.mu.RLock(); c.open.Add(1) }
+func (c *verifC08Cut) end()   { c.open.Add(-1); c.mu.RUnlock() }
+
+// verifC08Trigger makes a cut land exactly behind one durable write: the
+// goroutine whose committed write transaction brings left to zero announces
+// it (fire) and waits - outside of any transaction, holding no lock of the
+// harness - until the cut was taken (done), so the handler it runs is frozen
+// between that write and whatever it does next. The wait is bounded: if the
+// cut cannot be taken (some other transaction needs a lock of lnd that the
+// frozen goroutine holds) the goroutine goes on after two seconds and the cut
+// happens a little later. Soundness never rests on the freeze - any instant
+// without an open write transaction is a consistent cut - only precision.
+type verifC08Trigger struct {
+	class string // "" = any write transaction, else one that opened this top-level bucket
+	left  atomic.Int64
+	fire  chan struct{}
+	done  chan struct{}
+}
+
+type verifC08PLDB struct {
+	kvdb.Backend
+	cut     *verifC08Cut
+	commits atomic.Int64
+	trig    atomic.Pointer[verifC08Trigger]
+}
+
+// verifC08RecTx notes which top-level buckets a write transaction opens, so
+// that a cut can be placed behind a write of a given kind (circuit commit,
+// keystone, forwarding package, channel state, payment result).
+type verifC08RecTx struct {
+	walletdb.ReadWriteTx
+	mu      sync.Mutex
+	buckets []string
+}
+
+func (t *verifC08RecTx) note(key []byte) {
+	t.mu.Lock()
+	t.buckets = append(t.buckets, string(key))
+	t.mu.Unlock()
+}
+
+func (t *verifC08RecTx) ReadWriteBucket(key []byte) walletdb.ReadWriteBucket {
+	t.note(key)
+	return t.ReadWriteTx.ReadWriteBucket(key)
+}
+
+func (t *verifC08RecTx) CreateTopLevelBucket(key []byte) (walletdb.ReadWriteBucket, error) {
+	t.note(key)
+	return t.ReadWriteTx.CreateTopLevelBucket(key)
+}
+
+func (t *verifC08RecTx) opened(class string) bool {
+	t.mu.Lock()
+	defer t.mu.Unlock()
+	for _, b := range t.buckets {
+		if b == class {
+			return true
+		}
+	}
+	return false
+}
+
+func (d *verifC08PLDB) committed(rec *verifC08RecTx) {
+	d.commits.Add(1)
+	t := d.trig.Load()
+	if t == nil || (t.class != "" && !rec.opened(t.class)) {
+		return
+	}
+	if t.left.Add(-1) == 0 {
+		close(t.fire)
+		select {
+		case <-t.done:
+		case <-time.After(2 * time.Second):
+		}
+	}
+}
+
+func (d *verifC08PLDB) Update(f func(tx walletdb.ReadWriteTx) error, reset func()) error {
+	var rec *verifC08RecTx
+	d.cut.begin()
+	err := d.Backend.Update(func(tx walletdb.ReadWriteTx) error {
+		rec = &verifC08RecTx{ReadWriteTx: tx}
+		return f(rec)
+	}, reset)
+	d.cut.end()
+	if err == nil && rec != nil {
+		d.committed(rec)
+	}
+	return err
+}
+
+// Batch keeps bbolt's batching (the circuit map uses kvdb.Batch).
+func (d *verifC08PLDB) Batch(f func(tx walletdb.ReadWriteTx) error) error {
+	var rec *verifC08RecTx
+	g := func(tx walletdb.ReadWriteTx) error {
+		rec = &verifC08RecTx{ReadWriteTx: tx}
+		return f(rec)
+	}
+	d.cut.begin()
+	var err error
+	if b, ok := d.Backend.(walletdb.BatchDB); ok {
+		err = b.Batch(g)
+	} else {
+		err = d.Backend.Update(g, func() {})
+	}
+	d.cut.end()
+	if err == nil && rec != nil {
+		d.committed(rec)
+	}
+	return err
+}
+
+func (d *verifC08PLDB) BeginReadWriteTx() (walletdb.ReadWriteTx, error) {
+	d.cut.begin()
+	tx, err := d.Backend.BeginReadWriteTx()
+	if err != nil {
+		d.cut.end()
+		return nil, err
+	}
+	return &verifC08PLTx{verifC08RecTx: verifC08RecTx{ReadWriteTx: tx}, d: d}, nil
+}
+
+type verifC08PLTx struct {
+	verifC08RecTx
+	d    *verifC08PLDB
+	once sync.Once
+}
+
+func (t *verifC08PLTx) Commit() error {
+	err := t.ReadWriteTx.Commit()
+	t.once.Do(func() {
+		t.d.cut.end()
+		if err == nil {
+			t.d.committed(&t.verifC08RecTx)
+		}
+	})
+	return err
+}
+
+func (t *verifC08PLTx) Rollback() error {
+	err := t.ReadWriteTx.Rollback()
+	t.once.Do(t.d.cut.end)
+	return err
+}
+
+// verifC08Stores: the durable stores of the cluster. Index 0/1/2 =
+// alice/bob/carol.
+type verifC08Stores struct {
+	cut      *verifC08Cut
+	cdb      [3]*channeldb.DB // channel state + switch (circuits, results, fwd pkgs)
+	idb      [3]*channeldb.DB // invoice registry
+	cw, iw   [3]*verifC08PLDB
+	pts      [4]wire.OutPoint // alice(A-B), bob(A-B), bob(B-C), carol(B-C)
+	signers  [3]input.Signer
+	pools    [3]*lnwallet.SigPool
+	chanOpts []lnwallet.ChannelOpt
+}
+
+var verifC08NodeOfEnd = [4]int{0, 1, 1, 2}
+
+// loadChan reloads one channel end from its node's (current) database.
+func (s *verifC08Stores) loadChan(end int) (*lnwallet.LightningChannel, error) {
+	node := verifC08NodeOfEnd[end]
+	st, err := s.cdb[node].ChannelStateDB().FetchChannel(s.pts[end])
+	if err != nil {
+		return nil, fmt.Errorf("fetch channel end %d: %w", end, err)
+	}
+	return lnwallet.NewLightningChannel(s.signers[node], st, s.pools[node], s.chanOpts...)
+}
+
+func verifC08OpenBolt(dir string) (kvdb.Backend, error) {
+	return kvdb.GetBoltBackend(&kvdb.BoltBackendConfig{
+		DBPath:            dir,
+		DBFileName:        "channel.db",
+		NoFreelistSync:    true,
+		AutoCompact:       false,
+		AutoCompactMinAge: kvdb.DefaultBoltAutoCompactMinAge,
+		DBTimeout:         kvdb.DefaultDBTimeout,
+	})
+}
+
+// verifC08WrapDB puts an open backend behind the interposer and builds a
+// channeldb.DB on it.
+func verifC08WrapDB(cut *verifC08Cut, raw kvdb.Backend) (*verifC08PLDB, *channeldb.DB, error) {
+	w := &verifC08PLDB{Backend: raw, cut: cut}
+	db, err := channeldb.CreateWithBackend(w)
+	if err != nil {
+		return nil, nil, err
+	}
+	return w, db, nil
+}
+
+// verifC08NewRegistry is the fixture's newMockRegistry over a given database.
+func verifC08NewRegistry(t *testing.T, db *channeldb.DB) *mockInvoiceRegistry {
+	registry := invoices.NewRegistry(
+		db,
+		invoices.NewInvoiceExpiryWatcher(clock.NewDefaultClock(), 0, 0, nil, &mockChainNotifier{}),
+		&invoices.RegistryConfig{
+			FinalCltvRejectDelta: 5,
+			HtlcInterceptor:      &invoices.MockHtlcModifier{},
+		},
+	)
+	registry.Start()
+	t.Cleanup(func() { _ = registry.Stop() })
+	return &mockInvoiceRegistry{registry: registry}
+}
+
+// useRegistries replaces the registries/preimage caches the fixture gave the
+// servers and links of network n.
+func verifC08UseRegistries(n *threeHopNetwork, regs [3]*mockInvoiceRegistry, caches [3]*mockPreimageCache) {
+	for k, srv := range []*mockServer{n.aliceServer, n.bobServer, n.carolServer} {
+		if srv.registry != nil && srv.registry != regs[k] {
+			// the registry newMockServer created is never used
+			_ = srv.registry.registry.Stop()
+		}
+		srv.registry, srv.pCache = regs[k], caches[k]
+	}
+	n.aliceChannelLink.cfg.Registry, n.aliceChannelLink.cfg.PreimageCache = regs[0], caches[0]
+	n.firstBobChannelLink.cfg.Registry, n.firstBobChannelLink.cfg.PreimageCache = regs[1], caches[1]
+	n.secondBobChannelLink.cfg.Registry, n.secondBobChannelLink.cfg.PreimageCache = regs[1], caches[1]
+	n.carolChannelLink.cfg.Registry, n.carolChannelLink.cfg.PreimageCache = regs[2], caches[2]
+	verifC08OwnObfuscators(n.aliceChannelLink, n.firstBobChannelLink, n.secondBobChannelLink, n.carolChannelLink)
+}
+
+// verifC08OwnObfuscators: the fixture hands ONE mockObfuscator to all links of
+// a network and its EncryptFirstHop stores the failure in it (a field nothing
+// reads): two links failing adds at the same time - both of Bob's links
+// replaying after a boot - make the race detector report the fixture. Every
+// extraction gets an obfuscator of its own.
+func verifC08OwnObfuscators(links ...*channelLink) {
+	for _, l := range links {
+		l.cfg.ExtractErrorEncrypter = func(*btcec.PublicKey) (hop.ErrorEncrypter, lnwire.FailCode) {
+			return NewMockObfuscator(), lnwire.CodeNone
+		}
+	}
+}
+
+type verifC08MonState struct {
+	incomingAdds map[verifC08Key]lntypes.Hash
+	downFulfill  map[lntypes.Hash]bool
+	everAtBob    map[lntypes.Hash]bool
+	bobOutAdds   map[verifC08Key]lntypes.Hash
+	downResolved map[lntypes.Hash]string
+	upSeen       map[verifC08Key]map[string]int
+	upSeenEpoch  map[verifC08Key]map[int]int
+	traceLen     int
+}
+
+func verifC08CloneMap[K comparable, V any](m map[K]V) map[K]V {
+	out := make(map[K]V, len(m))
+	for k, v := range m {
+		out[k] = v
+	}
+	return out
+}
+
+// cloneState must be called with m.mu held.
+func (m *verifC08Mon) cloneState() verifC08MonState {
+	s := verifC08MonState{
+		incomingAdds: verifC08CloneMap(m.incomingAdds),
+		downFulfill:  verifC08CloneMap(m.downFulfill),
+		everAtBob:    verifC08CloneMap(m.everAtBob),
+		bobOutAdds:   verifC08CloneMap(m.bobOutAdds),
+		downResolved: verifC08CloneMap(m.downResolved),
+		upSeen:       map[verifC08Key]map[string]int{},
+		upSeenEpoch:  map[verifC08Key]map[int]int{},
+		traceLen:     len(m.trace),
+	}
+	for k, v := range m.upSeen {
+		s.upSeen[k] = verifC08CloneMap(v)
+	}
+	for k, v := range m.upSeenEpoch {
+		s.upSeenEpoch[k] = verifC08CloneMap(v)
+	}
+	return s
+}
+
+// verifC08PLSnap is what survives a power loss.
+type verifC08PLSnap struct {
+	dirs     [6]string // copies: channel dbs 0..2, invoice dbs 3..5
+	caches   [3]map[lntypes.Hash]lntypes.Preimage
+	mon      verifC08MonState
+	inflight int      // messages queued at the mock servers at the cut
+	commits  [6]int64 // committed write transactions per store up to the cut
+}
+
+// powerCutAfterCommit takes the cut right behind the k-th write transaction
+// (of the given class, see verifC08Trigger) that store number `store` (0..2
+// channel dbs, 3..5 invoice dbs) commits from now on, with the committing goroutine frozen there; when that store does
+// not commit that often within the wait the cut is taken anyway. Returns how
+// the cut was placed.
+func (v *verifC08Net) powerCutAfterCommit(base string, store int, class string, k int, wait time.Duration) (*verifC08PLSnap, string, error) {
+	w := v.st.cw[store%3]
+	if store >= 3 {
+		w = v.st.iw[store%3]
+	}
+	trig := &verifC08Trigger{class: class, fire: make(chan struct{}), done: make(chan struct{})}
+	trig.left.Store(int64(k + 1))
+	w.trig.Store(trig)
+	how := fmt.Sprintf("behind commit %d (%q) of store %d", k+1, class, store)
+	select {
+	case <-trig.fire:
+	case <-time.After(wait):
+		how = fmt.Sprintf("timer (store %d did not commit %d times (%q))", store, k+1, class)
+	}
+	w.trig.Store(nil)
+	snap, err := v.powerCut(base)
+	close(trig.done)
+	return snap, how, err
+}
+
+// powerCut takes the global cut (see above). The cluster keeps running.
+func (v *verifC08Net) powerCut(base string) (*verifC08PLSnap, error) {
+	snap := &verifC08PLSnap{}
+	st := v.st
+	servers := []*mockServer{v.n.aliceServer, v.n.bobServer, v.n.carolServer}
+	st.cut.mu.Lock()
+	defer st.cut.mu.Unlock()
+	for k := 0; k < 6; k++ {
+		w := st.cw[k%3]
+		if k >= 3 {
+			w = st.iw[k%3]
+		}
+		dir := filepath.Join(base, fmt.Sprintf("store%d", k))
+		if err := os.MkdirAll(dir, 0o700); err != nil {
+			return nil, err
+		}
+		f, err := os.Create(filepath.Join(dir, "channel.db"))
+		if err != nil {
+			return nil, err
+		}
+		err = w.Backend.Copy(f)
+		if cerr := f.Close(); err == nil {
+			err = cerr
+		}
+		if err != nil {
+			return nil, fmt.Errorf("copy store %d: %w", k, err)
+		}
+		snap.dirs[k] = dir
+		snap.commits[k] = w.commits.Load()
+	}
+	for k, srv := range servers {
+		srv.pCache.Lock()
+		snap.caches[k] = verifC08CloneMap(srv.pCache.preimageMap)
+		srv.pCache.Unlock()
+		snap.inflight += len(srv.messages)
+	}
+	v.mon.mu.Lock()
+	snap.mon = v.mon.cloneState()
+	v.mon.logf("=== POWER LOSS CUT taken here (everything below, up to the boot, is the discarded continuation)")
+	v.mon.mu.Unlock()
+	return snap, nil
+}
+
+// bootFromCut replaces the stores, registries, caches and monitor tables by
+// those of the cut. Called by reboot with the old cluster stopped.
+func (v *verifC08Net) bootFromCut(t *testing.T, snap *verifC08PLSnap) ([3]*mockInvoiceRegistry, [3]*mockPreimageCache, error) {
+	var regs [3]*mockInvoiceRegistry
+	var caches [3]*mockPreimageCache
+	st := v.st
+	for k := 0; k < 6; k++ {
+		raw, err := verifC08OpenBolt(snap.dirs[k])
+		if err != nil {
+			return regs, caches, fmt.Errorf("open copy %d: %w", k, err)
+		}
+		t.Cleanup(func() { _ = raw.Close() })
+		w, db, err := verifC08WrapDB(st.cut, raw)
+		if err != nil {
+			return regs, caches, fmt.Errorf("channeldb on copy %d: %w", k, err)
+		}
+		if k < 3 {
+			st.cw[k], st.cdb[k] = w, db
+		} else {
+			st.iw[k-3], st.idb[k-3] = w, db
+		}
+	}
+	for k := 0; k < 3; k++ {
+		regs[k] = verifC08NewRegistry(t, st.idb[k])
+		caches[k] = &mockPreimageCache{preimageMap: snap.caches[k]}
+	}
+	m := v.mon
+	m.mu.Lock()
+	m.incomingAdds, m.downFulfill, m.everAtBob = snap.mon.incomingAdds, snap.mon.downFulfill, snap.mon.everAtBob
+	m.bobOutAdds, m.downResolved = snap.mon.bobOutAdds, snap.mon.downResolved
+	m.upSeen, m.upSeenEpoch = snap.mon.upSeen, snap.mon.upSeenEpoch
+	m.logf("=== POWER LOSS BOOT: monitor tables rolled back to the cut (trace entry %d)", snap.mon.traceLen)
+	m.mu.Unlock()
+	return regs, caches, nil
+}
+
+// classifyCut describes, from the freshly loaded (not yet started) cluster,
+// which handler windows the cut fell into. Diagnostic counters only.
+func (v *verifC08Net) classifyCut(vc *verifCtx, snap *verifC08PLSnap, n *threeHopNetwork, pays []*verifC08Pay) (bool, string) {
+	chans := []*lnwallet.LightningChannel{v.channels.aliceToBob, v.channels.bobToAlice,
+		v.channels.bobToCarol, v.channels.carolToBob}
+	var nHtlc, pendingRemote, unsignedAcked, remoteUnsignedLocal, owe, pkgLockedAdds, pkgUnackedSF, pkgUnackedAdds int
+	var signedNotDeleted, resultNotTornDown int
+	servers := []*mockServer{n.aliceServer, n.bobServer, n.carolServer}
+	for end, c := range chans {
+		st := c.State()
+		nHtlc += len(st.LocalCommitment.Htlcs) + len(st.RemoteCommitment.Htlcs)
+		if tip, err := st.RemoteCommitChainTip(); err == nil && tip != nil {
+			pendingRemote++
+			nHtlc += len(tip.Commitment.Htlcs)
+			// a signed commitment whose settle/fails closed circuits
+			// that are still in the circuit map
+			cm := servers[verifC08NodeOfEnd[end]].htlcSwitch.circuits
+			for _, key := range tip.ClosedCircuitKeys {
+				if cm.LookupCircuit(key) != nil {
+					signedNotDeleted++
+				}
+			}
+		}
+		if ups, err := st.UnsignedAckedUpdates(); err == nil && len(ups) > 0 {
+			unsignedAcked++
+		}
+		if ups, err := st.RemoteUnsignedLocalUpdates(); err == nil && len(ups) > 0 {
+			remoteUnsignedLocal++
+		}
+		if c.OweCommitment() {
+			owe++
+		}
+		if pkgs, err := st.LoadFwdPkgs(); err == nil {
+			for _, pk := range pkgs {
+				if pk.State == channeldb.FwdStateLockedIn && len(pk.Adds) > 0 {
+					pkgLockedAdds++
+				}
+				if pk.State != channeldb.FwdStateLockedIn && len(pk.Adds) > 0 && !pk.AckFilter.IsFull() {
+					pkgUnackedAdds++
+				}
+				if len(pk.SettleFails) > 0 && !pk.SettleFailFilter.IsFull() {
+					pkgUnackedSF++
+				}
+			}
+		}
+	}
+	for _, p := range pays {
+		// a sender that stored the result of its payment and still has
+		// the payment's circuit
+		sw := servers[map[byte]int{'A': 0, 'B': 1, 'C': 2}[p.Dir[0]]].htlcSwitch
+		if _, err := sw.networkResults.getResult(p.Pid); err == nil &&
+			sw.circuits.LookupCircuit(CircuitKey{ChanID: hop.Source, HtlcID: p.Pid}) != nil {
+
+			resultNotTornDown++
+		}
+	}
+	bobPending := n.bobServer.htlcSwitch.circuits.NumPending()
+	bobOpen := n.bobServer.htlcSwitch.circuits.NumOpen()
+	flag := func(name string, on bool) {
+		if on {
+			vc.Count("pl_window_"+name, 1)
+		}
+	}
+	flag("msgs_in_flight", snap.inflight > 0)
+	flag("htlcs_on_commitments", nHtlc > 0)
+	flag("signed_awaiting_revocation", pendingRemote > 0)           // after AppendRemoteCommitChain, before ReceiveRevocation
+	flag("revoked_not_yet_signed", unsignedAcked > 0 || owe > 0)    // after a revocation write, before the next sign
+	flag("remote_unsigned_local_updates", remoteUnsignedLocal > 0)
+	flag("fwdpkg_lockedin_adds_not_forwarded", pkgLockedAdds > 0)   // after ReceiveRevocation, before the switch took the adds
+	flag("fwdpkg_adds_forwarded_not_acked", pkgUnackedAdds > 0)     // FwdFilter written, adds not yet acked by an outgoing commit
+	flag("fwdpkg_settlefails_not_acked", pkgUnackedSF > 0)          // responses handed over, SettleFailAcks not yet written
+	flag("bob_circuit_committed_not_opened", bobPending > bobOpen)  // after CommitCircuits, before OpenCircuits/sign
+	flag("bob_circuits_present", bobPending > 0)
+	flag("signed_settlefail_circuit_not_deleted", signedNotDeleted > 0)   // after the sign, before DeleteCircuits
+	flag("sender_result_stored_circuit_present", resultNotTornDown > 0)   // after storeResult, before the circuit teardown
+	active := nHtlc > 0 || snap.inflight > 0
+	desc := fmt.Sprintf("inflight=%d htlcs=%d pendingRemote=%d unsignedAcked=%d remoteUnsignedLocal=%d owe=%d "+
+		"pkgLockedAdds=%d pkgUnackedAdds=%d pkgUnackedSF=%d bobCircuits=%d/%d signedNotDeleted=%d resultNotTornDown=%d commits(chan a,b,c; inv a,b,c)=%v",
+		snap.inflight, nHtlc, pendingRemote, unsignedAcked, remoteUnsignedLocal, owe,
+		pkgLockedAdds, pkgUnackedAdds, pkgUnackedSF, bobPending, bobOpen, signedNotDeleted, resultNotTornDown, snap.commits)
+	return active, desc
 }
 
 func (v *verifC08Net) maybeCorrupt(m lnwire.Message) {
@@ -370,15 +925,16 @@ func (v *verifC08Net) install(t *testing.T) {
 // functions, so that a single channel can be reloaded while the links of the
 // other one keep running (reloading a channel whose link is live would read
 // its commit chain tip and pending updates in separate transactions).
-func verifC08Cluster(t *testing.T, capSat btcutil.Amount) (*clusterChannels, [4]*testLightningChannel, error) {
+func verifC08Cluster(t *testing.T, capSat btcutil.Amount) (*clusterChannels, [4]*testLightningChannel, *verifC08Stores, error) {
+	var none [4]*testLightningChannel
 	_, _, firstChanID, secondChanID := genIDs()
 	a, b1, err := createTestChannel(t, alicePrivKey, bobPrivKey, capSat, capSat, 0, 0, firstChanID)
 	if err != nil {
-		return nil, [4]*testLightningChannel{}, err
+		return nil, none, nil, err
 	}
 	b2, c, err := createTestChannel(t, bobPrivKey, carolPrivKey, capSat, capSat, 0, 0, secondChanID)
 	if err != nil {
-		return nil, [4]*testLightningChannel{}, err
+		return nil, none, nil, err
 	}
 	// The fixture gives every channel END its own database and leaves the
 	// channels "pending". A node keeps all its channels in one database,
@@ -392,38 +948,69 @@ func verifC08Cluster(t *testing.T, capSat btcutil.Amount) (*clusterChannels, [4]
 	st2.Db = bobDB
 	bobAddr := &net.TCPAddr{IP: net.ParseIP("127.0.0.1"), Port: 18556}
 	if err := st2.SyncPending(bobAddr, 1); err != nil {
-		return nil, [4]*testLightningChannel{}, fmt.Errorf("move bob(B-C) into bob's db: %w", err)
+		return nil, none, nil, fmt.Errorf("move bob(B-C) into bob's db: %w", err)
 	}
-	for _, tc := range []*testLightningChannel{a, b1, b2, c} {
+	tcs := [4]*testLightningChannel{a, b1, b2, c}
+	for _, tc := range tcs {
 		st := tc.channel.State()
 		if err := st.MarkAsOpen(st.ShortChanID()); err != nil {
-			return nil, [4]*testLightningChannel{}, fmt.Errorf("mark open: %w", err)
+			return nil, none, nil, fmt.Errorf("mark open: %w", err)
 		}
 	}
-	bobKeyPriv, _ := btcec.PrivKeyFromBytes(bobPrivKey)
-	signer := input.NewMockSigner([]*btcec.PrivateKey{bobKeyPriv}, nil)
-	pool := lnwallet.NewSigPool(2, signer)
-	if err := pool.Start(); err != nil {
-		return nil, [4]*testLightningChannel{}, err
-	}
-	t.Cleanup(func() { _ = pool.Stop() })
-	auxSigner := lnwallet.NewDefaultAuxSignerMock(t)
-	ptBC := b2.channel.ChannelPoint()
-	b2.restore = func() (*lnwallet.LightningChannel, error) {
-		st, err := bobDB.FetchChannel(ptBC)
+	// Every node's database goes behind the power-loss interposer (same
+	// open bbolt file, a second channeldb.DB on the wrapped backend); the
+	// channels, and through newThreeHopNetwork the switches, use that one.
+	// The invoice registries get databases of their own, wrapped as well.
+	stores := &verifC08Stores{cut: &verifC08Cut{}}
+	for node, tc := range []*testLightningChannel{a, b1, c} {
+		csdb, ok := tc.channel.State().Db.(*channeldb.ChannelStateDB)
+		if !ok {
+			return nil, none, nil, fmt.Errorf("unexpected channel store %T", tc.channel.State().Db)
+		}
+		w, db, err := verifC08WrapDB(stores.cut, csdb.GetParentDB().Backend)
 		if err != nil {
-			return nil, fmt.Errorf("fetch bob(B-C) from bob's db: %w", err)
+			return nil, none, nil, fmt.Errorf("wrap channel db %d: %w", node, err)
 		}
-		return lnwallet.NewLightningChannel(signer, st, pool,
-			lnwallet.WithLeafStore(&lnwallet.MockAuxLeafStore{}),
-			lnwallet.WithAuxSigner(auxSigner))
+		stores.cw[node], stores.cdb[node] = w, db
+		raw, err := verifC08OpenBolt(t.TempDir())
+		if err != nil {
+			return nil, none, nil, fmt.Errorf("invoice db %d: %w", node, err)
+		}
+		t.Cleanup(func() { _ = raw.Close() })
+		if stores.iw[node], stores.idb[node], err = verifC08WrapDB(stores.cut, raw); err != nil {
+			return nil, none, nil, fmt.Errorf("wrap invoice db %d: %w", node, err)
+		}
+	}
+	for end, tc := range tcs {
+		tc.channel.State().Db = stores.cdb[verifC08NodeOfEnd[end]].ChannelStateDB()
+		stores.pts[end] = tc.channel.ChannelPoint()
+	}
+	stores.chanOpts = []lnwallet.ChannelOpt{
+		lnwallet.WithLeafStore(&lnwallet.MockAuxLeafStore{}),
+		lnwallet.WithAuxSigner(lnwallet.NewDefaultAuxSignerMock(t)),
+	}
+	for node, key := range [][]byte{alicePrivKey, bobPrivKey, carolPrivKey} {
+		priv, _ := btcec.PrivKeyFromBytes(key)
+		signer := input.NewMockSigner([]*btcec.PrivateKey{priv}, nil)
+		pool := lnwallet.NewSigPool(2, signer)
+		if err := pool.Start(); err != nil {
+			return nil, none, nil, err
+		}
+		t.Cleanup(func() { _ = pool.Stop() })
+		stores.signers[node], stores.pools[node] = signer, pool
+	}
+	// every reload of a channel end (flap, restart, power loss) reads the
+	// node's CURRENT database
+	for end := range tcs {
+		end := end
+		tcs[end].restore = func() (*lnwallet.LightningChannel, error) { return stores.loadChan(end) }
 	}
 	return &clusterChannels{aliceToBob: a.channel, bobToAlice: b1.channel,
-		bobToCarol: b2.channel, carolToBob: c.channel}, [4]*testLightningChannel{a, b1, b2, c}, nil
+		bobToCarol: b2.channel, carolToBob: c.channel}, tcs, stores, nil
 }
 
 func verifC08Start(t *testing.T, vc *verifCtx, r *verifRng, capSat btcutil.Amount) (*verifC08Net, error) {
-	channels, tcs, err := verifC08Cluster(t, capSat)
+	channels, tcs, stores, err := verifC08Cluster(t, capSat)
 	if err != nil {
 		return nil, err
 	}
@@ -438,7 +1025,7 @@ func verifC08Start(t *testing.T, vc *verifCtx, r *verifRng, capSat btcutil.Amoun
 		}
 		return &clusterChannels{aliceToBob: out[0], bobToAlice: out[1], bobToCarol: out[2], carolToBob: out[3]}, nil
 	}
-	v := &verifC08Net{channels: channels, restore: restore, tcs: tcs,
+	v := &verifC08Net{channels: channels, restore: restore, tcs: tcs, st: stores,
 		delaySeed: r.U64(), delayPct: []int{0, 10, 30}[r.Intn(3)]}
 	mon := &verifC08Mon{vc: vc,
 		chanAB:       lnwire.NewChanIDFromOutPoint(channels.aliceToBob.ChannelPoint()),
@@ -452,15 +1039,22 @@ func verifC08Start(t *testing.T, vc *verifCtx, r *verifRng, capSat btcutil.Amoun
 		upSeen:       map[verifC08Key]map[string]int{},
 		upSeenEpoch:  map[verifC08Key]map[int]int{},
 	}
-	bobStateDB := channels.bobToAlice.State().Db
-	ptAB := channels.bobToAlice.ChannelPoint()
-	ptBC := channels.bobToCarol.ChannelPoint()
-	mon.fetchBobAB = func() (*channeldb.OpenChannel, error) { return bobStateDB.FetchChannel(ptAB) }
-	bobStateDB2 := channels.bobToCarol.State().Db
-	mon.fetchBobBC = func() (*channeldb.OpenChannel, error) { return bobStateDB2.FetchChannel(ptBC) }
+	// Bob's on-disk channel state, read from his CURRENT database (it is
+	// replaced by a power loss while no interceptor runs)
+	mon.fetchBobAB = func() (*channeldb.OpenChannel, error) {
+		return stores.cdb[1].ChannelStateDB().FetchChannel(stores.pts[1])
+	}
+	mon.fetchBobBC = func() (*channeldb.OpenChannel, error) {
+		return stores.cdb[1].ChannelStateDB().FetchChannel(stores.pts[2])
+	}
 	v.mon = mon
 	v.n = newThreeHopNetwork(t, channels.aliceToBob, channels.bobToAlice,
 		channels.bobToCarol, channels.carolToBob, testStartingHeight)
+	var regs [3]*mockInvoiceRegistry
+	for k := range regs {
+		regs[k] = verifC08NewRegistry(t, stores.idb[k])
+	}
+	verifC08UseRegistries(v.n, regs, [3]*mockPreimageCache{v.n.aliceServer.pCache, v.n.bobServer.pCache, v.n.carolServer.pCache})
 	// Bob charges a proportional fee as well.
 	for _, l := range []*channelLink{v.n.firstBobChannelLink, v.n.secondBobChannelLink} {
 		l.cfg.FwrdingPolicy.FeeRate = 1000
@@ -482,6 +1076,16 @@ func (v *verifC08Net) restart(t *testing.T) error { return v.restartWith(t, -1) 
 // that channel's counterpart is re-forwarded by the switch itself
 // (reforwardResponses) and not by the channel's own link.
 func (v *verifC08Net) restartWith(t *testing.T, keepDown int) error {
+	return v.reboot(t, keepDown, nil, nil, nil, nil)
+}
+
+// reboot stops the whole cluster and boots a new one. With snap == nil the
+// new cluster runs on the same databases (graceful restart); with a snapshot
+// it runs on the copies taken by powerCut: everything the old cluster did
+// after the cut is discarded (power loss at the instant of the cut). locked
+// runs with the harness' calls into the switches still excluded, after the
+// new cluster was built and before it starts.
+func (v *verifC08Net) reboot(t *testing.T, keepDown int, snap *verifC08PLSnap, vc *verifCtx, pays []*verifC08Pay, locked func(active bool, desc string)) error {
 	old := v.n
 	regs := [3]*mockInvoiceRegistry{old.aliceServer.registry, old.bobServer.registry, old.carolServer.registry}
 	caches := [3]*mockPreimageCache{old.aliceServer.pCache, old.bobServer.pCache, old.carolServer.pCache}
@@ -489,9 +1093,19 @@ func (v *verifC08Net) restartWith(t *testing.T, keepDown int) error {
 	defer v.netMu.Unlock()
 	v.gen++
 	old.stop()
+	if snap != nil {
+		v.plEpoch.Add(1)
+		for _, r := range regs {
+			_ = r.registry.Stop()
+		}
+		var err error
+		if regs, caches, err = v.bootFromCut(t, snap); err != nil {
+			return err
+		}
+	}
 	v.mon.mu.Lock()
 	v.mon.epoch++
-	v.mon.logf("=== cluster restart -> epoch %d", v.mon.epoch)
+	v.mon.logf("=== cluster restart (power loss: %v) -> epoch %d", snap != nil, v.mon.epoch)
 	v.mon.mu.Unlock()
 	channels, err := v.restore()
 	if err != nil {
@@ -500,12 +1114,7 @@ func (v *verifC08Net) restartWith(t *testing.T, keepDown int) error {
 	v.channels = channels
 	n := newThreeHopNetwork(t, channels.aliceToBob, channels.bobToAlice,
 		channels.bobToCarol, channels.carolToBob, testStartingHeight)
-	n.aliceServer.registry, n.bobServer.registry, n.carolServer.registry = regs[0], regs[1], regs[2]
-	n.aliceServer.pCache, n.bobServer.pCache, n.carolServer.pCache = caches[0], caches[1], caches[2]
-	n.aliceChannelLink.cfg.Registry, n.aliceChannelLink.cfg.PreimageCache = regs[0], caches[0]
-	n.firstBobChannelLink.cfg.Registry, n.firstBobChannelLink.cfg.PreimageCache = regs[1], caches[1]
-	n.secondBobChannelLink.cfg.Registry, n.secondBobChannelLink.cfg.PreimageCache = regs[1], caches[1]
-	n.carolChannelLink.cfg.Registry, n.carolChannelLink.cfg.PreimageCache = regs[2], caches[2]
+	verifC08UseRegistries(n, regs, caches)
 	for _, l := range []*channelLink{n.firstBobChannelLink, n.secondBobChannelLink} {
 		l.cfg.FwrdingPolicy.FeeRate = 1000
 	}
@@ -521,6 +1130,13 @@ func (v *verifC08Net) restartWith(t *testing.T, keepDown int) error {
 		n.bobServer.htlcSwitch.RemoveLink(chanID)
 		other.htlcSwitch.RemoveLink(chanID)
 		v.down[keepDown] = true
+	}
+	if locked != nil {
+		active, desc := false, ""
+		if snap != nil {
+			active, desc = v.classifyCut(vc, snap, n, pays)
+		}
+		locked(active, desc)
 	}
 	return v.startNet()
 }
@@ -641,6 +1257,7 @@ func (v *verifC08Net) linkUp(t *testing.T, ab bool) error {
 		if bob {
 			cl.cfg.FwrdingPolicy.FeeRate = 1000
 		}
+		verifC08OwnObfuscators(cl)
 		return cl, nil
 	}
 	links := map[string]*channelLink{}
@@ -815,6 +1432,7 @@ func (v *verifC08Net) send(p *verifC08Pay, wg *sync.WaitGroup) {
 	go func() {
 		defer wg.Done()
 		v.netMu.RLock()
+		ep := v.plEpoch.Load()
 		p.mu.Lock()
 		p.awaitGen = v.gen
 		p.mu.Unlock()
@@ -831,28 +1449,36 @@ func (v *verifC08Net) send(p *verifC08Pay, wg *sync.WaitGroup) {
 		v.netMu.RUnlock()
 		if err != nil {
 			p.mu.Lock()
-			p.outcome, p.errStr = "fail", "SendHTLC: "+err.Error()
+			if ep == v.plEpoch.Load() {
+				p.outcome, p.errStr = "fail", "SendHTLC: "+err.Error()
+			}
 			p.mu.Unlock()
 			return
 		}
-		v.awaitResult(p, resultChan, rerr)
+		v.awaitResult(p, resultChan, rerr, ep)
 	}()
 }
 
-func (v *verifC08Net) await(p *verifC08Pay, sender *mockServer) {
+func (v *verifC08Net) await(p *verifC08Pay) {
 	v.netMu.RLock()
+	ep := v.plEpoch.Load()
 	p.mu.Lock()
 	p.awaitGen = v.gen
 	p.mu.Unlock()
 	resultChan, err := v.server(p.Dir[0]).htlcSwitch.GetAttemptResult(p.Pid, p.Hash, newMockDeobfuscator())
 	v.netMu.RUnlock()
-	v.awaitResult(p, resultChan, err)
+	v.awaitResult(p, resultChan, err, ep)
 }
 
-func (v *verifC08Net) awaitResult(p *verifC08Pay, resultChan <-chan *PaymentResult, err error) {
+// awaitResult records the result of one attempt. ep is the power-loss epoch
+// the waiter was attached in: what a switch of the continuation that a power
+// loss discarded says about a payment never happened (plEpoch is bumped, and
+// the outcomes are reset, with all waiters' attach sections excluded; a stale
+// waiter that gets p.mu afterwards sees the new epoch).
+func (v *verifC08Net) awaitResult(p *verifC08Pay, resultChan <-chan *PaymentResult, err error, ep int64) {
 	if err != nil {
 		p.mu.Lock()
-		if p.outcome == "" {
+		if p.outcome == "" && ep == v.plEpoch.Load() {
 			if err == ErrPaymentIDNotFound {
 				p.outcome, p.errStr = "notsent", err.Error()
 			} else {
@@ -865,6 +1491,9 @@ func (v *verifC08Net) awaitResult(p *verifC08Pay, resultChan <-chan *PaymentResu
 	res, ok := <-resultChan
 	p.mu.Lock()
 	defer p.mu.Unlock()
+	if ep != v.plEpoch.Load() {
+		return
+	}
 	if !ok {
 		// the switch this waiter was attached to stopped; a waiter on
 		// the next network generation takes over
@@ -894,17 +1523,19 @@ func (v *verifC08Net) awaitResult(p *verifC08Pay, resultChan <-chan *PaymentResu
 // holder resolves a hold invoice: once the receiver has accepted the HTLC it
 // waits the payment's delay and settles or cancels; when stop closes first
 // (all faults injected, network stable) it resolves an accepted invoice the
-// same way and cancels one that never saw its HTLC.
-func (v *verifC08Net) holder(p *verifC08Pay, stop <-chan struct{}, wg *sync.WaitGroup, vc *verifCtx) {
+// same way and cancels one that never saw its HTLC. When abort closes (the
+// cluster is about to be thrown away by a power loss) it returns without
+// acting; a new holder on the new cluster's registry takes over.
+func (v *verifC08Net) holder(p *verifC08Pay, reg *mockInvoiceRegistry, stop, abort <-chan struct{}, wg *sync.WaitGroup, vc *verifCtx) {
 	defer wg.Done()
 	ctx := context.Background()
 	act := func() {
 		var err error
 		if p.HoldSettle {
-			err = p.reg.SettleHodlInvoice(ctx, p.Preimage)
+			err = reg.SettleHodlInvoice(ctx, p.Preimage)
 			vc.Count("hold_settled", 1)
 		} else {
-			err = p.reg.CancelInvoice(ctx, p.Hash)
+			err = reg.CancelInvoice(ctx, p.Hash)
 			vc.Count("hold_cancelled", 1)
 		}
 		if err != nil {
@@ -912,9 +1543,11 @@ func (v *verifC08Net) holder(p *verifC08Pay, stop <-chan struct{}, wg *sync.Wait
 		}
 	}
 	for {
-		inv, err := p.reg.LookupInvoice(ctx, p.Hash)
+		inv, err := reg.LookupInvoice(ctx, p.Hash)
 		if err == nil && inv.State == invoices.ContractAccepted {
 			select {
+			case <-abort:
+				return
 			case <-stop:
 			case <-time.After(p.HoldDelay):
 			}
@@ -925,12 +1558,14 @@ func (v *verifC08Net) holder(p *verifC08Pay, stop <-chan struct{}, wg *sync.Wait
 			return
 		}
 		select {
+		case <-abort:
+			return
 		case <-stop:
-			inv, err := p.reg.LookupInvoice(ctx, p.Hash)
+			inv, err := reg.LookupInvoice(ctx, p.Hash)
 			if err == nil && inv.State == invoices.ContractAccepted {
 				act()
 			} else {
-				_ = p.reg.CancelInvoice(ctx, p.Hash)
+				_ = reg.CancelInvoice(ctx, p.Hash)
 				vc.Count("hold_never_accepted", 1)
 			}
 			return
@@ -1090,6 +1725,12 @@ func (v *verifC08Net) waitIdle(stablePolls int, watchdog time.Duration) (verifC0
 	for time.Now().Before(deadline) {
 		time.Sleep(100 * time.Millisecond)
 		cur := v.snapshot()
+		if v.st.cut.open.Load() > 0 {
+			// some handler is in the middle of a durable write
+			same = 0
+			last = cur
+			continue
+		}
 		if cur == last {
 			same++
 			need := stablePolls
@@ -1134,6 +1775,31 @@ func verifC08Case(t *testing.T, vc *verifCtx, i int) {
 	byz := r.Intn(16) == 0
 	if byz {
 		plan = nil
+	}
+	// Power loss ("P", in one case out of four, never in a Byzantine case):
+	// a crash-consistent cut through all databases in the middle of
+	// activity, a PRNG amount of continued activity, then the live cluster
+	// is thrown away and a new one boots from the cut - two to five times
+	// in a row (the later cuts fall into the recovery from the previous one
+	// and into payments launched after it; VERIF_C08_PL_MAX=1 allows only
+	// one). The damage a wrong recovery does is durable, so it is still
+	// there when the case is judged once, at the end. The choices come
+	// from a stream of their own, so the rest of the case is the same with
+	// and without it. VERIF_C08_NOPOWERLOSS=1 turns the power loss into a
+	// graceful restart at the same place (to compare what only the power
+	// loss finds).
+	rp := vc.Rng(i).Fork("c08-powerloss")
+	if rp.Intn(4) == 0 && !byz {
+		at := rp.Intn(verifMin(len(plan), 2) + 1)
+		op := "P"
+		if os.Getenv("VERIF_C08_NOPOWERLOSS") != "" {
+			op = "R"
+		}
+		plan = append(plan[:at:at], append([]string{op}, plan[at:]...)...)
+	}
+	plBurst := 2 + rp.Intn(4)
+	if os.Getenv("VERIF_C08_PL_MAX") == "1" {
+		plBurst = 1
 	}
 	if ov := os.Getenv("VERIF_C08_PLAN"); ov != "" { // debugging aid
 		plan = strings.Split(ov, ",")
@@ -1182,12 +1848,21 @@ func verifC08Case(t *testing.T, vc *verifCtx, i int) {
 			v.byzMu.Unlock()
 		}
 	}
-	// launch in 1-3 waves
+	// launch in 1-3 waves. A case with power losses keeps a third of the
+	// payments back and launches them after the boots, so that the later
+	// cuts of the burst fall into fresh activity as well.
+	nFirst := nPay
+	for _, op := range plan {
+		if op == "P" {
+			nFirst = nPay - nPay/3
+		}
+	}
+	reserve := pays[nFirst:]
 	waves := 1 + r.Intn(3)
 	per := (nPay + waves - 1) / waves
 	k := 0
 	for w := 0; w < waves; w++ {
-		for j := 0; j < per && k < nPay; j++ {
+		for j := 0; j < per && k < nFirst; j++ {
 			v.send(pays[k], &wg)
 			k++
 		}
@@ -1196,14 +1871,24 @@ func verifC08Case(t *testing.T, vc *verifCtx, i int) {
 		}
 	}
 	holdStop := make(chan struct{})
+	var holdAbort chan struct{}
 	var holdWg sync.WaitGroup
+	startHolders := func() {
+		holdAbort = make(chan struct{})
+		for _, p := range pays {
+			if p.Kind == "hold" {
+				holdWg.Add(1)
+				go v.holder(p, v.server(p.Dir[1]).registry, holdStop, holdAbort, &holdWg, vc)
+			}
+		}
+	}
+	startHolders()
 	for _, p := range pays {
 		if p.Kind == "hold" {
-			holdWg.Add(1)
-			go v.holder(p, holdStop, &holdWg, vc)
 			vc.Count("hold_payments", 1)
 		}
 	}
+	plKind, plDesc := 0, "" // 0 no power loss, 1 cut while idle, 2 cut during activity
 	if victim != nil {
 		// Let the corrupted settle take effect. A correct forwarder
 		// refuses it (its link on the outgoing channel fails, as it
@@ -1267,14 +1952,125 @@ func verifC08Case(t *testing.T, vc *verifCtx, i int) {
 			wg.Add(1)
 			go func() {
 				defer wg.Done()
-				v.await(p, v.server(p.Dir[0]))
+				v.await(p)
 			}()
 		}
 	}
+	// powerLoss: one cut, continued activity, boot from the cut.
+	powerLoss := func() error {
+		// (the race build is several times slower: give the payments the
+		// same chance to get past their sender before the next cut)
+		pre := time.Duration(rp.Intn(90)) * time.Millisecond
+		if vc.Thorough() {
+			pre *= 4
+		}
+		time.Sleep(pre)
+		// five cuts in six are placed right behind the k-th write
+		// transaction (of any kind, or of a given kind, which gives the rare
+		// kinds - a payment result, a circuit deletion - the weight of the
+		// frequent ones) that some store, mostly the forwarder's, commits
+		// from now on, with the committing handler frozen there; the others
+		// by the clock
+		byCommit := rp.Intn(6) != 0
+		store := []int{1, 1, 1, 1, 1, 0, 2, 3, 5, 0, 2, 1}[rp.Intn(12)]
+		k := rp.Intn(6)
+		class := []string{"", "", "", "", "open-chan-bucket", "fwd-packages", "circuit-adds", "circuit-keystones",
+			"network-result-store-bucket"}[rp.Intn(9)]
+		if class != "" {
+			k %= 3
+		}
+		if store >= 3 {
+			class, k = "", k%3 // the invoice databases see few writes
+		}
+		if ov := os.Getenv("VERIF_C08_PL_TARGET"); ov != "" { // debugging aid: "store,class,k"
+			f := strings.Split(ov, ",")
+			byCommit, class = true, f[1]
+			fmt.Sscan(f[0], &store)
+			fmt.Sscan(f[2], &k)
+		}
+		cont := time.Duration(0)
+		if rp.Intn(4) != 0 {
+			cont = time.Duration(rp.Intn(120)) * time.Millisecond
+		}
+		if v.down[0] || v.down[1] {
+			vc.Count("powerloss_with_link_down", 1)
+		}
+		var (
+			snap *verifC08PLSnap
+			err  error
+		)
+		how := "timer"
+		if byCommit {
+			wait := 200 * time.Millisecond
+			if vc.Thorough() {
+				wait *= 4
+			}
+			snap, how, err = v.powerCutAfterCommit(t.TempDir(), store, class, k, wait)
+			if strings.HasPrefix(how, "behind") {
+				vc.Count("powerloss_cut_behind_chosen_commit", 1)
+			}
+		} else {
+			snap, err = v.powerCut(t.TempDir())
+		}
+		if err != nil {
+			return err
+		}
+		// the cluster, and the harness' hold decisions, go on for a while;
+		// none of it will have happened
+		time.Sleep(cont)
+		close(holdAbort)
+		holdWg.Wait()
+		kind, desc := 1, ""
+		err = v.reboot(t, -1, snap, vc, pays, func(active bool, d string) {
+			desc = d
+			if active {
+				kind = 2
+			}
+			// every result the discarded continuation produced is
+			// forgotten; it is asked for again by attempt id
+			for _, p := range pays {
+				p.mu.Lock()
+				if p.sent {
+					p.outcome, p.errStr = "", ""
+				}
+				p.mu.Unlock()
+			}
+		})
+		vc.Count("powerloss_cuts", 1)
+		if kind == 2 {
+			vc.Count("powerloss_cut_during_activity", 1)
+		}
+		desc = "cut placed by " + how + "; " + desc
+		vc.Diag("powerloss_cut", fmt.Sprintf("case %d: %s", i, desc))
+		plDesc += " | " + desc
+		if kind > plKind {
+			plKind = kind
+		}
+		if err == nil {
+			startHolders()
+			requery()
+			// part of the payments kept back
+			for n := (len(pays) - nFirst + plBurst - 1) / plBurst; n > 0 && len(reserve) > 0; n-- {
+				v.send(reserve[0], &wg)
+				reserve = reserve[1:]
+			}
+		}
+		return err
+	}
 	for _, op := range plan {
-		time.Sleep(time.Duration(r.Intn(150)) * time.Millisecond)
+		if op != "P" {
+			time.Sleep(time.Duration(r.Intn(150)) * time.Millisecond)
+		}
 		var err error
 		switch op {
+		case "P":
+			vc.Count("powerloss_cases", 1)
+			for j := 0; j < plBurst && err == nil; j++ {
+				err = powerLoss()
+			}
+			for ; len(reserve) > 0; reserve = reserve[1:] {
+				v.send(reserve[0], &wg)
+			}
 		case "fAB", "fBC":
 			err = v.flap(t, op == "fAB")
 			vc.Count("link_flaps", 1)
@@ -1365,7 +2161,8 @@ func verifC08Case(t *testing.T, vc *verifCtx, i int) {
 		}
 		v.mon.mu.Lock()
 		defer v.mon.mu.Unlock()
-		return map[string]any{"payments": ps, "state": st, "start": start, "trace": v.mon.trace}
+		return map[string]any{"payments": ps, "state": st, "start": start, "faults": strings.Join(plan, ","),
+			"powerloss_cut": plDesc, "trace": v.mon.trace}
 	}
 	if !st.clean() && os.Getenv("VERIF_DEBUG") != "" {
 		v.debugDump()
@@ -1490,7 +2287,7 @@ func verifC08Case(t *testing.T, vc *verifCtx, i int) {
 	for _, p := range pays {
 		kinds[p.Dir+p.Kind+p.outcome] = true
 	}
-	vc.Sig(fmt.Sprint(nRestarts, nFlaps, len(kinds), verifMin(okCount, 6), v.delayPct))
+	vc.Sig(fmt.Sprint(nRestarts, nFlaps, plKind, len(kinds), verifMin(okCount, 6), v.delayPct))
 	if i%10 == 0 {
 		vc.Sample(wit())
 	}
